@@ -528,6 +528,21 @@ func c10Scenarios(tier string) []*world.Scenario {
 		}
 		out = append(out, sc)
 	}
+	// more fragments for one node than one vectored write takes (1024 slices), queued by a single loop round
+	{
+		sc := BigBatch("C10", 1500, false, 1)
+		inner := sc.Check
+		sc.Check = func(w *world.World) []world.Violation {
+			vs := inner(w)
+			for i := range vs {
+				if vs[i].Sig != "per-node-order-violated" {
+					vs[i].Sig = "per-node-order-violated"
+				}
+			}
+			return vs
+		}
+		out = append(out, sc)
+	}
 	if tier == "thorough" {
 		out = append(out, c10Scenario("3x set-get",
 			[][]Req{{set(a0, "x"), get(a0, "x")}, {set(a1, "y"), get(a1, "y")}, {set(a2, "z"), get(a2, "z")}},
